@@ -93,7 +93,8 @@ CHECKS["C18"] = {
             "every return / break / continue / panic) of every function and function literal that calls Lock/RLock on a sync.Mutex/RWMutex, abstract state = multiset of held lock expressions + deferred unlocks; every exit "
             "must have held minus deferred = empty; also re-lock of a held mutex and unlock of an unheld one. Data races themselves are NOT decided by this family (see DESIGN section 7).",
     "parts": [A("sched", "./checks/c18", "TestC18Sched", overlay=True, gomaxprocs=1, budget={"quick": 120, "thorough": 2400}),
-              A("lockpaths", "./checks/c18", "TestC18LockPaths", nshards=1, budget={"quick": 60, "thorough": 60})],
+              A("lockpaths", "./checks/c18", "TestC18LockPaths", nshards=1, budget={"quick": 60, "thorough": 60}),
+              A("race", "./checks/c18", "TestC18Race", race=True, sampling=True, budget={"quick": 90, "thorough": 900})],
 }
 
 CHECKS["C10"] = {
